@@ -161,6 +161,12 @@ func ValidateCounterpartyID(id string, protocol ProtocolID) error {
 		)
 	}
 
+	// The counterparty ID is stored as a non-terminal part of collections keys,
+	// which cannot encode a NUL byte.
+	if strings.IndexByte(id, 0) >= 0 {
+		return errors.New("counterparty ID cannot contain a NUL byte")
+	}
+
 	var valid bool
 	switch protocol {
 	case PROTOCOL_IBC:
